@@ -151,6 +151,11 @@ fn purity_probe<L: LangInterpreter>(l: &L) -> String {
         let (c, cv) = l.format_decimal_and_value(&i12, &d05);
         let (d, dv) = l.format_decimal_and_value(&i2, &d07);
         let (e, ev) = l.format_and_value(&i2);
+        // beyond 2^64: whatever is special about values that do not fit an integer type
+        let big = mk(b"98765432109876543210");
+        let (f, fv) = l.format_and_value(&big);
+        let (e, ev) = (format!("{e}|{f}"), ev.to_bits() ^ fv.to_bits().rotate_left(7));
+        let ev = f64::from_bits(ev);
         format!(
             "{a}/{}|{b}/{}|{c}/{}|{d}/{}|{e}/{}|{:?}{}{}",
             av.to_bits(),
